@@ -37,7 +37,8 @@ class KSession(object):
         self.outs = []           # gallina out terms
         self.slots = []          # python objects (or None)
         self.first = {}          # id(obj) -> first slot index
-        self.pyops = []          # python-side description for replay
+        self.pyops = []          # python-side description for replay (model ops and 'report' actions)
+        self.opidx = []          # position in pyops of each model op
         self.stats = {}
 
     def close(self):
@@ -45,6 +46,13 @@ class KSession(object):
 
     # ---------------- observation
     def dump(self, o):
+        try:
+            return self._dump(o)
+        except Exception:
+            self.corrupt = True           # a component vector of the object is malformed (observed, not modelled)
+            return '(OutExn OtherExn)'
+
+    def _dump(self, o):
         n = o._node
         if n is None: k = 'KPlain'
         elif o.is_elementary: k = '(KElem %s)' % ckey(n.uid)
@@ -61,11 +69,13 @@ class KSession(object):
                 for v in (o._u_components, o._d_components, o._i_components):
                     if len(v._index) != len(v._value) or any(k is INF_UID for k in v._index):
                         return False
-        return True
+        return not getattr(self, 'corrupt', False)
 
     def record(self, opterm, pyop, thunk, multi=False):
         self.ops.append(opterm)
         self.pyops.append(pyop)
+        if not hasattr(self, 'opidx'): self.opidx = []     # subclasses with their own __init__
+        self.opidx.append(len(self.pyops) - 1)
         self.stats[pyop[0]] = self.stats.get(pyop[0], 0) + 1
         try:
             r = thunk()
@@ -151,6 +161,19 @@ class KSession(object):
             if f == 'pow': return va ** vb
             if f == 'atan2': return self.core.atan2(va, vb)
         return self.record('(OpBin B_%s %s %s)' % (f, self._argterm(a), self._argterm(b)), ('bin', f, a, b), th)
+
+    def report(self, a, kind='budget'):
+        """a reporting call (reporting.budget / components / repr) on slot a: the model says it has NO effect on any
+        number, so no operation is emitted; whatever it changes shows up in later steps or in the heap check"""
+        o = self.slots[a]
+        self.stats['report_' + kind] = self.stats.get('report_' + kind, 0) + 1
+        self.pyops.append(('report', kind, a))
+        try:
+            if kind == 'budget': self.reporting.budget(o, trim=0)
+            elif kind == 'budget_all': self.reporting.budget(o, trim=0, intermediate=True)
+            elif kind == 'components': self.reporting.components(o, trim=0)
+        except Exception:
+            pass
 
     def result(self, a, label=None):
         lab = None if label is None else 'L%d' % label
@@ -249,6 +272,9 @@ def gen_program(rng, ctx_id, size=None, malformed=False, profile='mix'):
     s.profile = profile
     UR = s.lib.UncertainReal
     size = size or rng.randint(8, 30)
+    # scale of the declared uncertainties: usually 1, sometimes tiny (covariances ~1e-18 .. 1e-30 must still be exact)
+    us_ = 1.0 if rng.random() < 0.82 else 10.0 ** -rng.choice([6, 9, 12, 13, 15])
+    s.uscale = us_
     W = PROFILES[profile]
     cum = [sum(W[:i + 1]) / sum(W) for i in range(len(W))]
     def reals():
@@ -258,14 +284,14 @@ def gen_program(rng, ctx_id, size=None, malformed=False, profile='mix'):
     for _ in range(nd):
         c = rng.random()
         if c < 0.45:
-            s.ureal(rnd_val(rng), abs(rnd_val(rng, 0.01, 2.0)) if rng.random() > 0.08 else 0.0, rnd_df(rng),
+            s.ureal(rnd_val(rng), us_ * abs(rnd_val(rng, 0.01, 2.0)) if rng.random() > 0.08 else 0.0, rnd_df(rng),
                     label=rng.choice([None, None, rng.randint(0, 9)]), indep=True)
         elif c < 0.7:
-            s.ureal(rnd_val(rng), abs(rnd_val(rng, 0.01, 2.0)) + 0.01, math.inf,
+            s.ureal(rnd_val(rng), us_ * (abs(rnd_val(rng, 0.01, 2.0)) + 0.01), math.inf,
                     label=None, indep=False)
         elif c < 0.9:
             n = rng.randint(1, 4)
-            us = [abs(rnd_val(rng, 0.01, 2.0)) + (0.0 if rng.random() < 0.1 else 0.01) for _ in range(n)]
+            us = [us_ * (abs(rnd_val(rng, 0.01, 2.0)) + (0.0 if rng.random() < 0.1 else 0.01)) for _ in range(n)]
             if rng.random() < 0.15: us[rng.randrange(n)] = 0.0
             s.multiple([rnd_val(rng) for _ in range(n)], us, rng.choice([1.0, 2.5, 4.0, 9.0, math.inf]))
         else:
@@ -323,6 +349,7 @@ def gen_program(rng, ctx_id, size=None, malformed=False, profile='mix'):
         elif c < cum[3]:
             try_corr()
         elif c < cum[4]:
+            if rng.random() < 0.2: s.report(a, rng.choice(['budget', 'budget', 'budget_all', 'components']))
             s.read(rng.choice(['x', 'u', 'v', 'df', 'df', 'u']), a)
         elif c < cum[5]:
             b = rng.choice(rs)
@@ -363,7 +390,7 @@ def run_kernel_corr(rng, nprog, profile, name, malformed_every=7, per_file=40):
         for i, r in zip(idx, rep):
             if r != -1:
                 s = sessions[i]
-                mism.append({'kind': 'model-vs-implementation', 'program': s.pyops[:r + 1], 'step': r,
+                mism.append({'kind': 'model-vs-implementation', 'program': s.pyops[:(s.opidx[r] + 1 if r < len(getattr(s, 'opidx', [])) else len(s.pyops))], 'step': r,
                              'ctx': s.ctx_id, 'implementation_output': s.outs[r][:600] if r < len(s.outs) else None})
     for i, s in enumerate(sessions):
         if not s.heap_ok:
@@ -399,6 +426,7 @@ def run_pyops(pyops, ctx_id):
         elif k == 'ucomp': s.ucomp(op[1], op[2])
         elif k == 'get_cov': s.get_cov(op[1], op[2])
         elif k == 'get_corr': s.get_corr(op[1], op[2])
+        elif k == 'report': s.report(op[2], op[1])
         else: raise ValueError(k)
     s.heap_ok = s.check_heap()
     s.close()
@@ -529,4 +557,52 @@ def scenarios(rng, ctx0=5000):
     s.bin('add', ('ref', 0), ('ref', 1)); s.bin('add', ('ref', len(s.slots) - 1), ('ref', 2))
     s.read('df', len(s.slots) - 1); s.read('u', len(s.slots) - 2); s.set_corr(0.4, 1, len(s.slots) - 3)
     done(s)
+    # S11: tiny uncertainties (covariances 1e-18 .. 1e-30): nothing may be thresholded to zero -- correlations of results,
+    # sensitivity / component w.r.t. an intermediate of tiny uncertainty, dof
+    for sc in (1e-6, 1e-9, 1e-13, 1e-15):
+        s = new()
+        s.ureal(_rv(rng), sc * _rv(rng, .5, 2), rng.choice([inf, 6.0]), indep=True)        # 0
+        s.ureal(_rv(rng), sc * _rv(rng, .5, 2), inf, indep=False)                           # 1
+        s.ureal(_rv(rng), sc * _rv(rng, .5, 2), inf, indep=False)                           # 2
+        s.set_corr(round(rng.uniform(-.8, .8), 2), 1, 2)
+        s.bin('mul', ('ref', 0), ('ref', 1)); m0 = len(s.slots) - 1                         # x0*x1
+        s.result(m0, None); m = len(s.slots) - 1                                            # m = result(x0*x1)
+        s.bin('mul', ('ref', m), ('num', 3.0)); s.bin('add', ('ref', len(s.slots) - 1), ('ref', 2)); w = len(s.slots) - 1
+        s.bin('sub', ('ref', 0), ('ref', 2)); v = len(s.slots) - 1
+        s.sens(w, m); s.ucomp(w, m); s.sens(w, 0); s.sens(w, 1); s.sens(m, 0)
+        s.get_corr(w, v); s.get_corr(v, w); s.get_corr(w, m); s.get_corr(m0, v); s.get_cov(w, v); s.get_corr(1, 2); s.get_corr(w, 1)
+        s.read('u', w); s.read('df', w); s.read('u', m)
+        done(s)
+    # S12: covariance of results with only independent influences whose uid ranges are nested / disjoint / overlapping
+    # (x0 x1 x2 x3 declared in this order): every ordered pair of y_a = f(x1), y_b = g(x0,x1,x2), y_c = h(x0,x3), y_d = k(x1,x2)
+    s = new()
+    for _ in range(4): s.ureal(_rv(rng), _rv(rng, .1, 1), rng.choice([inf, 5.0]), indep=True)
+    s.un('exp', 1); ya = len(s.slots) - 1
+    s.bin('mul', ('ref', 0), ('ref', 1)); s.bin('add', ('ref', len(s.slots) - 1), ('ref', 2)); yb = len(s.slots) - 1
+    s.bin('sub', ('ref', 0), ('ref', 3)); yc = len(s.slots) - 1
+    s.bin('div', ('ref', 1), ('ref', 2)); yd = len(s.slots) - 1
+    ys = [ya, yb, yc, yd, 1, 0]
+    for a in ys:
+        for b in ys:
+            s.get_cov(a, b)
+    for a in ys[:4]:
+        for b in ys[:4]:
+            s.get_corr(a, b)
+    done(s)
+    # S13: reporting calls (budget / components, with and without intermediates) between operations: they must not change
+    # any number -- the operands are used again afterwards (merges with numbers having other influences) and re-budgeted
+    for variant in range(2):
+        s = new()
+        s.ureal(_rv(rng), _rv(rng, .1, 1), inf, indep=True); s.ureal(_rv(rng), _rv(rng, .1, 1), inf, indep=False)
+        s.ureal(_rv(rng), _rv(rng, .1, 1), inf, indep=False); s.ureal(_rv(rng), _rv(rng, .1, 1), 4.0, indep=True)
+        s.set_corr(0.4, 1, 2)
+        s.bin('add', ('ref', 0), ('ref', 1)); y = len(s.slots) - 1
+        if variant == 1: s.result(y, None); y = len(s.slots) - 1
+        s.report(y, 'budget'); s.report(y, 'components'); s.report(y, 'budget_all')
+        s.bin('mul', ('num', 5.0), ('ref', y)); k = len(s.slots) - 1
+        s.bin('add', ('ref', k), ('ref', 3)); s.bin('add', ('ref', y), ('ref', 2)); z = len(s.slots) - 1
+        s.report(z, 'budget'); s.report(y, 'budget')
+        s.bin('sub', ('ref', z), ('ref', y)); s.read('u', len(s.slots) - 1); s.read('u', y); s.read('df', z)
+        s.ucomp(z, 1); s.ucomp(z, 2); s.get_cov(y, z)
+        done(s)
     return out
